@@ -1,6 +1,7 @@
 CONSTANTS
   Locs = {"en", "fr", "de"}
   Default = "en"
+  HeaderSpellings = {"tight", "spaced", "q", "star"}
   HeaderToks = {"fr", "it"}
   MaxCtx = 2
   MaxViews = 2
